@@ -36,7 +36,8 @@ RULE = ("measure: every T in 0..60 (130 thorough) x sampling period none,1..12 (
         "temper: every T in 0..60 (100) x swap period 1..12 (16) x sampling period 1..12 (16), 1..5 mock replicas with "
         "scripted n and scripted swap decisions, serial driver on all and parallel driver on a third (all in thorough), "
         "plus random cases with periods > T, 0..8 replicas; ising: real QmcIsingGraph samplers / tempering containers "
-        "against a clone advanced one step at a time; generic: real generic Qmc samplers with a non-zero energy offset of either "
+        "against a clone advanced one step at a time (two thirds of the tempering cases with a Hamiltonian ladder: |J|, Gamma, |h| "
+        "scaled per slot, offsets captured at construction, get_offset() of every slot checked after every step); generic: real generic Qmc samplers with a non-zero energy offset of either "
         "sign (built with make_*_interaction_and_offset and by into_qmc, with and without longitudinal field) through "
         "timesteps / timesteps_sample / timesteps_measure and both tempering drivers (offset differing from slot to slot), "
         "returned energy vs -<n>/beta + get_offset() from a manual timestep loop; itime: imaginary_time_fold on real Ising and generic samplers; "
